@@ -119,7 +119,11 @@ fn group_round<G: Grp>(rng: &mut StdRng, pool: &Pool, out: &mut Out, k: u64, foc
             let (s, t) = (pick_scalar(rng, pool), pick_scalar(rng, pool));
             let (p, _) = any_elem::<G>(rng, pool);
             out.call("g.modlaws", json!({"G": g, "a": p.jac(), "s": b(&s.to_slice()), "t": b(&t.to_slice())}), || {
-                outs! {"spt" => (p * (s + t)).jac(), "sp_tp" => (p * s + p * t).jac(),
+                let q = p * s;
+                let mut qn = q;
+                qn.normalize_();
+                outs! {"mix1" => (q + qn).jac(), "mix2" => (qn + q).jac(), "s2" => b(&(s + s).to_slice()),
+                       "spt" => (p * (s + t)).jac(), "sp_tp" => (p * s + p * t).jac(),
                        "st" => (p * (s * t)).jac(), "s_tp" => ((p * t) * s).jac(),
                        "zero" => (p * Fr::zero()).jac(), "one" => (p * Fr::one()).jac(), "m1" => (p * (-Fr::one())).jac(),
                        "rm1p_p" => (p * (-Fr::one()) + p).jac()}
@@ -130,8 +134,11 @@ fn group_round<G: Grp>(rng: &mut StdRng, pool: &Pool, out: &mut Out, k: u64, foc
         // commutativity / associativity / neutrality on three elements
         let (c, _) = any_elem::<G>(rng, pool);
         out.call("g.laws", json!({"G": g, "a": a.jac(), "b": bb.jac(), "c": c.jac()}), || {
+            // the library's own == on the two sides of each law (the sides usually differ in representative: z and -z, ...)
+            let eqs = (a + bb) == (bb + a) && ((a + bb) + c) == (a + (bb + c)) && (a - bb) == -(bb - a) && (a + G::zero()) == a
+                && ((a + bb) - bb) == a && (a + bb) == (bb + a) + G::zero();
             outs! {"ab" => (a + bb).jac(), "ba" => (bb + a).jac(), "ab_c" => ((a + bb) + c).jac(), "a_bc" => (a + (bb + c)).jac(),
-                   "a0" => (a + G::zero()).jac(), "z0a" => (G::zero() + a).jac()}
+                   "a0" => (a + G::zero()).jac(), "z0a" => (G::zero() + a).jac(), "eqs" => Value::Bool(eqs)}
         });
     }
 }
